@@ -581,12 +581,30 @@ class Folder:
         return r
 
     def _fold(self, node: ast.AST):
-        if isinstance(node, ast.Call) and isinstance(node.func, ast.Attribute) and self.ctors and all(k.arg is not None for k in node.keywords):
+        if isinstance(node, ast.Call) and isinstance(node.func, ast.Attribute) and self.ctors:
             ch_ = attr_chain(node.func)
             if ch_ is not None and ch_ in self.ctors:
-                # a call the caller models itself (a random draw, a method of a collaborating object), whatever its receiver
+                # a call the caller models itself (a random draw, a method of a collaborating object), whatever its receiver;
+                # *args / **kwargs of the call site are spread as python does
+                pos_, kws_ = [], {}
+                for a in node.args:
+                    if isinstance(a, ast.Starred):
+                        v_ = self.fold(a.value)
+                        if not isinstance(v_, (list, tuple)):
+                            raise Unfoldable("starred argument that is not a sequence")
+                        pos_ += list(v_)
+                    else:
+                        pos_.append(self.fold(a))
+                for k in node.keywords:
+                    if k.arg is None:
+                        d_ = self.fold(k.value)
+                        if not isinstance(d_, dict):
+                            raise Unfoldable("** argument that is not a dictionary")
+                        kws_.update(d_)
+                    else:
+                        kws_[k.arg] = self.fold(k.value)
                 try:
-                    return self.ctors[ch_](*[self.fold(a) for a in node.args], **{k.arg: self.fold(k.value) for k in node.keywords})
+                    return self.ctors[ch_](*pos_, **kws_)
                 except (TypeError, ValueError) as exc:
                     raise Unfoldable(str(exc))
         if isinstance(node, ast.Constant):
